@@ -35,8 +35,8 @@ type CodecCase struct {
 func (c CodecCase) RandSeed() uint64 { return c.Seed }
 
 var codecOps = map[string][]string{
-	"bgv":  {"Encode", "Decode"},
-	"ckks": {"Encode", "Decode"},
+	"bgv":  {"Encode", "Decode", "Embed"},
+	"ckks": {"Encode", "Decode", "Embed"},
 	"rlwe": {"Encrypt", "EncryptNew", "EncryptZero", "Decrypt", "DecryptNew", "GenPublicKey", "GenRelinearizationKey", "GenGaloisKey", "GenEvaluationKey"},
 }
 
@@ -136,10 +136,11 @@ func runCodec(c CodecCase, rec *h.Rec) error {
 	}
 
 	switch c.Op {
-	case "Encode", "Decode":
+	case "Encode", "Decode", "Embed":
 		type encoder interface {
 			Encode(values interface{}, pt *rlwe.Plaintext) error
 			Decode(pt *rlwe.Plaintext, values interface{}) error
+			Embed(values interface{}, metadata *rlwe.MetaData, polyOut interface{}) error
 		}
 		newEnc := func() encoder {
 			if e.bgvP != nil {
@@ -157,7 +158,14 @@ func runCodec(c CodecCase, rec *h.Rec) error {
 			vals := mkVals(c.Seed + uint64(i) + 99)
 			_, _ = protect(func() error { return used.Decode(pt, vals) })
 		}
-		if c.Op == "Encode" {
+		// encode is Encode(values, pt) or Embed(values, pt.MetaData, pt.Value) (the metadata is an input of Embed)
+		encode := func(ecd encoder, vals any, pt *rlwe.Plaintext) error {
+			if c.Op == "Embed" {
+				return ecd.Embed(vals, pt.MetaData, pt.Value)
+			}
+			return ecd.Encode(vals, pt)
+		}
+		if c.Op == "Encode" || c.Op == "Embed" {
 			vals := mkVals(c.Seed)
 			pre := snapAny(vals)
 			ptA := e.mkPt(c.In, h.NewSplitMix(c.Seed^0x11)) // random content: "used before"; level and scale are inputs of Encode
@@ -174,11 +182,15 @@ func runCodec(c CodecCase, rec *h.Rec) error {
 					ptB.Value.Coeffs[i][j] = 0
 				}
 			}
-			errA, panA := protect(func() error { return used.Encode(vals, ptA) })
+			preMeta := metaString(ptA.MetaData, true)
+			errA, panA := protect(func() error { return encode(used, vals, ptA) })
+			if post := metaString(ptA.MetaData, true); c.Op == "Embed" && post != preMeta {
+				return fail("C09:"+opName+":"+c.Kind+":input-mutated:metadata", "%s changed the metadata it was given: %s -> %s", opName, preMeta, post)
+			}
 			if post := snapAny(vals); post != pre {
 				return fail("C09:"+opName+":"+c.Kind+":input-mutated:values", "%s changed its value slice: before %s after %s", opName, trunc(pre, 200), trunc(post, 200))
 			}
-			errB, panB := protect(func() error { return newEnc().Encode(mkVals(c.Seed), ptB) })
+			errB, panB := protect(func() error { return encode(newEnc(), mkVals(c.Seed), ptB) })
 			if panB != "" || errB != nil {
 				rec.Class("result=reference-rejected")
 				return nil
